@@ -380,7 +380,7 @@ def run_spellings(tier, rnd, st, res):
 # ------------------------------------------------------------------------------------------------ serialisers
 BAD_COLOURS = ['#12', '#12345g', '', 'nocolor', (1, 2), (256, 0, 0), (0, 0, 0, 2.0), '#', '#1', '#12345', '#1234567', '#123456789',
                'notacolour', (1, 2, 3, 4, 5), (-1, 0, 0), (0, 0, 256), (0, 0, 0, -1), (0, 0, 0, 256), (0, 0, 0, 1.5), (0, 0, 0, -0.5),
-               (), '#ggg', 'rgb(1,2,3)', ' red']
+               (), '#ggg', 'rgb(1,2,3)', ' red', '#12 34 56', '#1 2', '#12  34', '# 123', '#12 3', '12 34 56', '#1234 5678']
 GOOD_COLOURS = ['#123', '#a1b2c3', 'Red', 'darkblue', (1, 2, 3), (0, 0, 0, 255), (9, 8, 7, 0.5), '#00000080', '#1238']
 COLOUR_KEYS = {'svg': COLOURS, 'png': COLOURS, 'ppm': COLOURS, 'eps': ['dark', 'light'], 'pdf': ['dark', 'light'], 'pam': ['dark', 'light'],
                'xpm': ['dark', 'light'], 'svgz': ['dark', 'light', 'quiet_zone']}
